@@ -2057,7 +2057,8 @@ class Recipe:
 
         new_container = Container(name)
         self.uses(new_container)
-        self.steps.append(RecipeStep(self, 'solution', None, new_container, solute, solvent, kwargs))
+        self.steps.append(RecipeStep(self, 'solution', solvent if isinstance(solvent, Container) else None,
+                                     new_container, solute, solvent, kwargs))
 
         return new_container
 
@@ -2287,8 +2288,13 @@ class Recipe:
             elif operator == 'solution':
                 dest = step.to[0]
                 dest_name = dest.name
-                step.frm.append(None)
                 solute, solvent, kwargs = step.operands
+                if isinstance(solvent, Container):
+                    # containers and such can change while baking the recipe
+                    solvent = self.results[solvent.name]
+                    step.frm[0] = solvent
+                else:
+                    step.frm.append(None)
 
                 solute_names = ', '.join([solute.name for solute in solute]) if isinstance(solute, Iterable) else solute.name
                 # kwargs should have two out of concentration, quantity, and total_quantity
@@ -2311,6 +2317,7 @@ class Recipe:
                 if isinstance(solvent, Container):
                     self.used.add(solvent.name)
                     self.results[solvent.name], self.results[dest_name] = results
+                    step.frm.append(self.results[solvent.name])
                 else:
                     self.results[dest_name] = results
                 step.substances_used = self.results[dest_name].get_substances()
